@@ -115,3 +115,24 @@ def run(ctx, rep, tier):
     ate = [n for n in ast.walk(cv) if isinstance(n, ast.Assign) and ast.unparse(n.targets[0]) == "all_transitions_empty"]
     rep.check(len(ate) == 1 and "decider_dfa.transitions_pointing_to(x) for x in corresponding_finish_states[i]" in ast.unparse(ate[0].value), "C08.d", CV,
               "those transitions = everything pointing into the clause's finish states", "action-only clause transition set changed")
+
+
+def _shared(ctx, rep, tier):
+    from ..core import Report
+    from . import c05
+    rep.rule("C08.e", "the fall-through optimiser translates a case's non-consuming else transition by the right symbol set (shared with C05.b): the else body still starts at the offending byte")
+    sub = Report("C05")
+    c05.run(ctx, sub, tier)
+    hits = [v for v in sub.violations if v.rule == "C05.b"]
+    for v in hits:
+        rep.bad("C08.e", v.function, v.construct, v.message, v.extra, v.line)
+    if not hits:
+        rep.ok("C08.e", "DfaCompileCtx._optimize_shortcircuit_fallthroughs", "Else widening / proxy guards hold")
+
+
+_run0 = run
+
+
+def run(ctx, rep, tier):
+    _run0(ctx, rep, tier)
+    _shared(ctx, rep, tier)
